@@ -12,8 +12,10 @@ def _target_dir():
 
 
 HBIN = os.path.join(_target_dir(), "release", "verif-harness")
-EVID = os.path.join(VERIF, "evidence")
-REPLAYS = os.path.join(VERIF, "replays")
+# trials against other checkouts (VERIF_REPO) must not overwrite the committed evidence
+_OUT = os.environ.get("VERIF_OUT")
+EVID = os.path.join(_OUT, "evidence") if _OUT else os.path.join(VERIF, "evidence")
+REPLAYS = os.path.join(_OUT, "replays") if _OUT else os.path.join(VERIF, "replays")
 WORK = os.path.join(VERIF, "work")
 COQ_Q = ["-Q", "Script", "Verif", "-Q", "Ms", "Verif", "-Q", "Proofs", "Verif", "-Q", "Properties", "Verif", "-Q", "Tables", "Verif"]
 COQ_W = ["-w", "-notation-overridden,-deprecated-hint-without-locality,-deprecated-instance-without-locality"]
